@@ -208,6 +208,7 @@ func (node *mastNode) store(
 	cache NodeCache,
 	marshal func(interface{}) ([]byte, error),
 	storeQ chan func() error,
+	commit *[]func(),
 ) (string, error) {
 	if !node.dirty {
 		if debugMutation && node.expected != nil {
@@ -233,6 +234,10 @@ func (node *mastNode) store(
 		}
 	}
 
+	// The node itself is left untouched until every store of the flush has
+	// succeeded (see commit below), so that a failed flush leaves the tree
+	// as it was: its links are replaced by names in a copy.
+	links := make([]interface{}, len(node.Link))
 	linkCount := 0
 	for i, il := range node.Link {
 		if il == nil {
@@ -241,18 +246,19 @@ func (node *mastNode) store(
 		linkCount++
 		switch l := il.(type) {
 		case string:
-			break
+			links[i] = l
 		case *mastNode:
-			newLink, err := l.store(ctx, persist, cache, marshal, storeQ)
+			newLink, err := l.store(ctx, persist, cache, marshal, storeQ, commit)
 			if err != nil {
 				return "", fmt.Errorf("flush: %w", err)
 			}
-			node.Link[i] = newLink
+			links[i] = newLink
 		default:
 			return "", fmt.Errorf("don't know how to flush link of type %T", l)
 		}
 	}
 	trimmed := *node
+	trimmed.Link = links
 	if linkCount == 0 {
 		trimmed.Link = nil
 	}
@@ -274,22 +280,25 @@ func (node *mastNode) store(
 		panic(fmt.Errorf("whoa, somebody modified %v==>%v after loading (keys were %v, became %v)",
 			*node.source, hash, node.expected.Key, node.Key))
 	}
-	node.dirty = false
-	if debugMutation {
-		node.expected = node.xcopy()
-	}
-	node.source = &hash
-	node.shared = true
-	// the node must be marked shared before the store workers can publish it to the cache
 	storeQ <- func() error {
 		err := persist.Store(ctx, hash, encoded)
 		if err != nil {
 			return fmt.Errorf("persist store: %w", err)
 		}
+		return nil
+	}
+	*commit = append(*commit, func() {
+		copy(node.Link, links)
+		node.dirty = false
+		if debugMutation {
+			node.expected = node.xcopy()
+		}
+		node.source = &hash
+		node.shared = true
+		// the node must be marked shared before it is published to the cache
 		if cache != nil {
 			cache.Add(cacheKey, node)
 		}
-		return nil
-	}
+	})
 	return hash, nil
 }
